@@ -51,12 +51,16 @@ def gen_guess(rng, spec, target, kind):
             forms.append("vecconst")
     if kind == "var" and m == 1 and n > 1:
         forms.append("vecconst")
+    if kind == "state" and m > 1:
+        forms += ["matconst", "matconst"]          # a constant of the symbol's own shape
     form = rng.choice(forms)
     g = {"target": name, "tkind": kind, "form": form}
     if form == "const":
         g.update({"kind": "const", "val": ocpgen.rnd(rng, -2, 2)})
     elif form == "vecconst":
         g.update({"kind": "array", "val": [[ocpgen.rnd(rng, -2, 2)] for _ in range(n)], "as": "DM"})
+    elif form == "matconst":
+        g.update({"kind": "array", "val": [[ocpgen.rnd(rng, -2, 2) for _ in range(m)] for _ in range(n)], "as": "DM"})
     elif form == "expr":
         g.update({"kind": "expr", "mat": [[time_expr(rng)] for _ in range(n)]})
     else:
@@ -178,14 +182,17 @@ def expected_start(spec, guesses, ph0, base=None):
         gs = last.get(s["name"])
         n = n_ * m_
         if m_ > 1:
-            # matrix state: constants only
-            v = np.zeros((N + 1, n)) + (gs["val"] if gs else 0.0)
+            # matrix state: constants only (a scalar, or a matrix of the state's own shape)
+            cval = 0.0
+            if gs:
+                cval = gs["val"] if gs["kind"] == "const" else np.array(gs["val"], dtype=float).reshape(n_, m_).reshape(-1, order="F")
+            v = np.zeros((N + 1, n)) + cval
             mk0 = np.ones(N + 1, dtype=bool)
             if cls == "SS":
                 mk0[1:] = False
             out["xc:" + s["name"]] = (v.reshape(N + 1, m_, n_).transpose(0, 2, 1), mk0)
             if cls == "DC":
-                out["xi:" + s["name"]] = ((np.zeros((N * M + 1, n)) + (gs["val"] if gs else 0.0)).reshape(
+                out["xi:" + s["name"]] = ((np.zeros((N * M + 1, n)) + cval).reshape(
                     N * M + 1, m_, n_).transpose(0, 2, 1), None)
             continue
         ncol = gs.get("ncol") if gs else None
